@@ -13,7 +13,7 @@ HOOKS = dict(
     add_only=True,
 )
 
-CHECKS_IDS = ["C06", "C07"]
+CHECKS_IDS = ["C01", "C02", "C06", "C07"]
 
 ENGINES = [
     dict(name="mc", path="/verif/mc",
@@ -27,6 +27,29 @@ NOTES = ("All checks run ./check <ID> --tier quick|thorough against the working 
          "Known findings: /verif/known_findings.json (never written at run time). Replays: ./check --replay <file>.")
 
 CHECKS = {
+    "C01": dict(
+        category="model_checking",
+        technique="bounded exhaustive enumeration of a finite model grammar x solver configurations; each solve's "
+                  "multipliers recombined by an independent exact-form proof checker",
+        text="Every (model, configuration) pair of the finite grammar is solved on the real library (cvxpy path with "
+             "CLARABEL / default SCS, MOSEK path through the stand-in, trace / logdet reduction, verbose 0/1/2) and the "
+             "exposed multipliers are recombined independently of check_feasibility; the identity, sign and PSD "
+             "conditions and 'returned value == constant' are decided for each pair. A known finding (LMIs not symmetric "
+             "as written) is matched only through its explanation predicate.",
+        note="Bounded by the grammar (24 classes, <= 2 steps, one or two extras) and the parameter tuples; solver "
+             "tolerance 2e-6 (CLARABEL) / 5e-3 (SCS default); real MOSEK is modelled by mc/mosek_standin.",
+    ),
+    "C02": dict(
+        category="model_checking",
+        technique="same enumeration of models x configurations; eval() of every leaf, sent constraint, LMI and held / "
+                  "post-solve-built object compared with the reference evaluation on the returned Gram matrix",
+        text="For every (model, configuration) pair the returned instance is checked: Gram reproduction by the evaluated "
+             "leaf points, feasibility of every sent constraint and LMI, objective = smallest metric, primal <= dual, and "
+             "eval() of every object reachable by the user - held, created before the solve and never sent, or built by "
+             "<= 2 DSL operations after the solve - against mc.refalg's evaluation of its decomposition.",
+        note="Same bounds as C01; post-solve objects: all results of <= 2 operations over <= 4 held points and <= 3 "
+             "held expressions on a sub-family of the cases (every 3rd / 10th case in quick).",
+    ),
     "C06": dict(
         category="model_checking",
         technique="bounded exhaustive enumeration of all typed DSL expression trees (<=3 operator nodes full scalar "
@@ -55,5 +78,5 @@ CHECKS = {
 
 _PENDING = "check not built yet in this session (planned, see DESIGN.md section 4); not claimed until it has run clean and caught a mutant"
 NOT_APPLICABLE = {k: _PENDING for k in
-                  ["C01", "C02", "C03", "C04", "C05", "C08", "C09", "C10", "C11", "C12", "C13", "C14", "C15",
+                  ["C03", "C04", "C05", "C08", "C09", "C10", "C11", "C12", "C13", "C14", "C15",
                    "C16", "C17"]}
